@@ -107,6 +107,9 @@ class Call:
         self.d0 = read_diag(self.kind, self.cube, self.funcs)
         self.cube.check_interrupt = self.callback
         res = {"obs": None, "sig": None, "foreign": None, "hang": False}
+        old_interval = sys.getswitchinterval()
+        if mode == "real":
+            sys.setswitchinterval(1e-6)
         try:
             out = self.rig.calculate(self.cube, self.funcs, mode, **kw)
             res["sig"] = cl.out_sig(out)
@@ -119,6 +122,7 @@ class Call:
                 res["foreign"] = repr(e)[:300]
             res["obs"] = key
         finally:
+            sys.setswitchinterval(old_interval)
             self.cube.check_interrupt = None
         res["maps"] = self.rig.ctl.maps
         res["d1"] = read_diag(self.kind, self.cube, self.funcs)
@@ -176,7 +180,7 @@ def run(ctx):
                 "serial mode - no raise and a raise at EVERY single invocation index (as invocation number and as sub-cube number), "
                 "Exception and non-Exception interrupts; pooled mode under the deterministic scheduler - EVERY subset of invocation "
                 "numbers and EVERY subset of sub-cubes for k <= 6 (random subsets for k = 7, 8) x seeded schedules (bytecode and task "
-                "granularity) x pool sizes {1,2,3,4,8,16}, plus the real ThreadPool; each call followed by an uninterrupted calculate on the same "
+                "granularity) x pool sizes {1,2,3,4,8,16}, plus the real ThreadPool (switch interval 1e-6); each call followed by an uninterrupted calculate on the same "
                 "objects.  A case is distinct by (cube type, k, mode, fault set, schedule) and non-trivial when a consultation raised")
     ctx.trusted = list(core.STD_TRUSTED) + [
         "modelled, not verified: multiprocessing.pool.ThreadPool.map (batches of ceil(n/4p); a raising item aborts the rest of its batch; all "
